@@ -247,11 +247,13 @@ def hostile_classes(name):
         c.add("glob")
     if any(ord(x) < 32 or ord(x) == 127 for x in name):
         c.add("control")
+    if any(0xDC80 <= ord(x) <= 0xDCFF for x in name):
+        c.add("not-utf8")
     if any(ord(x) > 0xFFFF for x in name):
         c.add("4byte")
     elif any(ord(x) > 127 for x in name):
         c.add("multibyte")
-    if len(name.encode()) >= 200:
+    if len(name.encode("utf-8", "surrogateescape")) >= 200:
         c.add("long")
     return c
 
